@@ -104,8 +104,6 @@ pub broadcast axiom fn ax_peq_arraytype(a: ArrayType, b: ArrayType) ensures #[tr
 #[verifier::external_body]
 fn vpeq<T>(l: &T, r: &T) -> (b: bool) ensures b == peq(*l, *r) { unimplemented!() }
 // OrderedFloat's total equality / hash on f32, f64 (decided over every bit pattern by the Kani harnesses of C18)
-pub uninterp spec fn ofeq<T>(a: T, b: T) -> bool;
-pub uninterp spec fn ofkey<T>(a: T) -> int;
 pub broadcast axiom fn ax_ofeq_refl<T>(a: T) ensures #[trigger] ofeq(a, a);
 pub broadcast axiom fn ax_ofeq_sym<T>(a: T, b: T) ensures #[trigger] ofeq(a, b) == ofeq(b, a);
 pub broadcast axiom fn ax_ofeq_trans<T>(a: T, b: T, c: T) requires #[trigger] ofeq(a, b), #[trigger] ofeq(b, c) ensures ofeq(a, c);
@@ -159,6 +157,8 @@ def gen_specs(vs):
             return "(match (l, r) { (Some(a), Some(b)) => ofeq(a, b), (None, None) => true, _ => false })"
         if n == "Json":
             return "(match (l, r) { (Some(a), Some(b)) => json_text(*a) == json_text(*b), (None, None) => true, _ => false })"
+        if n == "Vector":
+            return "vec_peq(l, r)"
         if len(ps) == 2:
             return "(peq(tl, tr) && peq(l, r))"
         return "peq(l, r)"
@@ -175,6 +175,8 @@ def gen_specs(vs):
             return "(match x { Some(f) => seq![HEv::OKey(ofkey(f))], None => seq![HEv::Str(\"null\"@)] })"
         if n == "Json":
             return "(match x { Some(j) => seq![HEv::Str(json_text(*j))], None => seq![HEv::Str(\"null\"@)] })"
+        if n == "Vector":
+            return "vec_hev(x)"
         if len(ps) == 2:
             return "seq![HEv::Key(hkey(t)), HEv::Key(hkey(x))]"
         return "seq![HEv::Key(hkey(x))]"
@@ -228,6 +230,7 @@ def build(u):
     vtext = u.type_item(F, "enum", "Value", props=P12 + P18, rules=[r_path])
     u.type_item(F, "struct", "ValueTypeErr", props=P12)
     vs = variants_of(vtext)
+    u.spec(VEC_SPEC, "value::vector-spec", props=P18)
     u.spec(gen_specs(vs), "value::generated-specs(tag, is_null, eqv, hash_events)", props=P12 + P18)
     u.spec(TRAITS, "value::traits+laws", props=P12)
 
@@ -311,12 +314,36 @@ def build(u):
          rules=[make_r_sub("R-generic", r"fn hash_json<H: Hasher>\(v: &Option<Box<Json>>, state: &mut H\)", "fn hash_json(v: &Option<Box<Json>>, state: &mut VHasher)"),
                 make_r_sub("R-hash", r"serde_json::to_string\(v\)\.unwrap\(\)\.hash\(state\)", "vhash_string(vjson_str(v), state)"), make_r_sub("R-hash", r'"null"\.hash\(state\)', 'vhash_str("null", state)')],
          spec=[("ensures final(state).tr@ =~= old(state).tr@ + (match *v { Some(j) => seq![HEv::Str(json_text(*j))], None => seq![HEv::Str(\"null\"@)] }),", ["MODEL"])])
-    # the vector helpers iterate with zip / slices: outside the rule set; stated, not claimed
-    u.spec("""#[verifier::external_body]
-fn cmp_vector(l: &Option<Box<PgVector>>, r: &Option<Box<PgVector>>) -> (b: bool) ensures b == peq(*l, *r) { unimplemented!() }
-#[verifier::external_body]
-fn hash_vector(v: &Option<Box<PgVector>>, state: &mut VHasher) ensures final(state).tr@ == old(state).tr@.push(HEv::Key(hkey(*v))) { unimplemented!() }
-""", "value::vector-helpers(ASSUMED: cmp_vector / hash_vector are an equivalence / a key function of it)", props=P18)
+    # ---- the pgvector helpers: cmp_vector (R-zip: `for (a, b) in X.iter().zip(Y.iter()) { B }` is the loop over the common prefix of the two
+    # slices: trusted desugaring of Iterator::zip) and hash_vector (one OrderedFloat hash per component)
+    def r_zip(text, ctx):
+        m = re.search(r"for \(([a-z_]+), ([a-z_]+)\) in ([a-z_]+)\.iter\(\)\.zip\(([a-z_]+)\.iter\(\)\) \{", text)
+        if not m:
+            raise rl.LostAnchor(ctx.key + ": R-zip: no `for (a, b) in x.iter().zip(y.iter())` loop")
+        a_, b_, x_, y_ = m.groups()
+        open_off = m.end() - 1
+        toks = rl.code_toks(rl.lex(text[open_off:]))
+        close = rl.match_close(toks, 0)
+        body = text[open_off + 1: open_off + toks[close].start]
+        newl = ("let (zx_, zy_) = (%s, %s);\n                let mut zi_: usize = 0;\n                while zi_ < zx_.len() && zi_ < zy_.len() {\n                    let %s = &zx_[zi_];\n                    let %s = &zy_[zi_];%s    zi_ += 1;\n                }"
+                % (x_, y_, a_, b_, body))
+        ctx.app("R-zip", rl.norm_ws(m.group(0)), "while zi_ < x.len() && zi_ < y.len() { let a = &x[zi_]; let b = &y[zi_]; ..; zi_ += 1; }")
+        return text[:m.start()] + newl + text[open_off + toks[close].end:]
+    # (loop_isolation(false): the loop sits below `let (l, r) = ..`, which shadows the parameters the postcondition names)
+    u.fn(F, H, "cmp_vector", ret="b_", props=P18 + P12 + P15, key="hashable_value::cmp_vector", vpath="cmp_vector", rules=[r_path, r_zip], prefix="#[verifier::loop_isolation(false)]\n    ",
+         spec="ensures\n    // same dimension and component-wise equal (OrderedFloat's total equality); NULL equals NULL only\n    b_ == vec_peq(*l, *r),",
+         loops=["invariant lo_ == Some(*lv_), ro_ == Some(*rv_), zx_@ == vec_view(**lv_) && zy_@ == vec_view(**rv_), zx_@.len() == zy_@.len(), zi_ <= zx_@.len(),\n    forall|i: int| 0 <= i < zi_ ==> ofeq(#[trigger] zx_@[i], zy_@[i]),\ndecreases zx_@.len() - zi_,"],
+         proofs={"body-start": "let ghost lo_ = *l; let ghost ro_ = *r;", "before#1:let (l, r) = (l.as_slice(), r.as_slice());": "let ghost lv_ = l; let ghost rv_ = r;",
+                 })
+    u.fn(F, H, "hash_vector", props=P18 + ["MODEL"], key="hashable_value::hash_vector", vpath="hash_vector",
+         rules=[r_path, make_r_sub("R-generic", r"fn hash_vector<H: Hasher>\(v: &Option<Box<PgVector>>, state: &mut H\)", "fn hash_vector(v: &Option<Box<PgVector>>, state: &mut VHasher)"),
+                make_r_sub("R-forghost", r"for &value in v\.as_slice\(\)\.iter\(\) \{", "let vs_ = v.as_slice();\n                for value_ in it: vs_.iter() {\n                    let value = *value_;"),
+                make_r_sub("R-hash", r'"null"\.hash\(state\)', 'vhash_str("null", state)')],
+         spec=[("ensures final(state).tr@ =~= old(state).tr@ + vec_hev(*v),", ["MODEL"])],
+         loops=["invariant it.index@ <= vs_@.len(), vs_@ == vec_view(**vv_), state.tr@ =~= t0_ + vec_keys(vs_@.subrange(0, it.index@ as int)),"],
+         proofs={"body-start": "let ghost t0_ = state.tr@;", "before#1:let vs_ = v.as_slice();": "let ghost vv_ = v;",
+                 "loop1-end": "proof { assert(vs_@.subrange(0, it.index@ + 1) =~= vs_@.subrange(0, it.index@ as int).push(value)); assert(vec_keys(vs_@.subrange(0, it.index@ + 1)) =~= vec_keys(vs_@.subrange(0, it.index@ as int)).push(HEv::OKey(ofkey(value)))); }",
+                 "body-end": "proof { match v { Some(x) => { assert(vec_view(**x).subrange(0, vec_view(**x).len() as int) =~= vec_view(**x)); } None => {} } }"})
     u.spec(C18_LEMMAS, "value::c18-lemmas", props=P18 + P15)
     # value tuples as keys: ValueTuple's PartialEq, Eq and Hash are all DERIVED (structural over Value's eq / hash, so coherent when Value's are:
     # trusted derive semantics); a hand-written impl is outside this unit's reach (=> UNDECIDED => the native search decides)
@@ -368,17 +395,47 @@ def emit_impl(u, vp, ty, name, boxed, known_variants, how):
     u.emit("}\n// C12 for this type: the laws, proved from the three views above\nimpl Laws for %s { proof fn law(x: Self, v: Value) {} }\n" % vty, kind="spec", key="Laws for " + k, props=P12)
 
 
+VEC_SPEC = r'''
+// pgvector::Vector: a list of f32 components (as_slice); equal iff same dimension and component-wise equal under OrderedFloat's total
+// equality (cmp_vector, under contract below); hashed component by component (hash_vector)
+pub uninterp spec fn vec_view(v: PgVector) -> Seq<f32>;
+pub uninterp spec fn ofeq<T>(a: T, b: T) -> bool;
+pub uninterp spec fn ofkey<T>(a: T) -> int;
+pub open spec fn vec_eqv(a: Seq<f32>, b: Seq<f32>) -> bool { a.len() == b.len() && forall|i: int| 0 <= i < a.len() ==> ofeq(#[trigger] a[i], b[i]) }
+pub open spec fn vec_peq(l: Option<Box<PgVector>>, r: Option<Box<PgVector>>) -> bool {
+    match (l, r) { (Some(a), Some(b)) => vec_eqv(vec_view(*a), vec_view(*b)), (None, None) => true, _ => false }
+}
+pub open spec fn vec_keys(a: Seq<f32>) -> Seq<HEv> { a.map_values(|f: f32| HEv::OKey(ofkey(f))) }
+pub open spec fn vec_hev(x: Option<Box<PgVector>>) -> Seq<HEv> { match x { Some(v) => vec_keys(vec_view(*v)), None => seq![HEv::Str("null"@)] } }
+impl PgVector {
+    #[verifier::external_body]
+    fn as_slice(&self) -> (r: &[f32]) ensures r@ == vec_view(*self) { unimplemented!() }
+}
+'''
+
 C18_LEMMAS = r'''
 // ---- C18 as lemmas over eq's contract (r == eqv) and hash's model ---------------------------------------------------------------
+// vec_eqv is an equivalence, and equal vectors feed the hasher the same keys (from OrderedFloat's laws, component-wise)
+pub proof fn lemma_vec_refl(a: Seq<f32>) ensures vec_eqv(a, a) { broadcast use ax_ofeq_refl; }
+pub proof fn lemma_vec_sym(a: Seq<f32>, b: Seq<f32>) ensures vec_eqv(a, b) == vec_eqv(b, a)
+{
+    broadcast use ax_ofeq_sym;
+    if vec_eqv(a, b) { assert forall|i: int| 0 <= i < b.len() implies ofeq(#[trigger] b[i], a[i]) by { assert(ofeq(a[i], b[i])); } }
+    if vec_eqv(b, a) { assert forall|i: int| 0 <= i < a.len() implies ofeq(#[trigger] a[i], b[i]) by { assert(ofeq(b[i], a[i])); } }
+}
+pub proof fn lemma_vec_trans(a: Seq<f32>, b: Seq<f32>, c: Seq<f32>) requires vec_eqv(a, b), vec_eqv(b, c) ensures vec_eqv(a, c)
+{ assert forall|i: int| 0 <= i < a.len() implies ofeq(#[trigger] a[i], c[i]) by { assert(ofeq(a[i], b[i])); assert(ofeq(b[i], c[i])); ax_ofeq_trans(a[i], b[i], c[i]); } }
+pub proof fn lemma_vec_hash(a: Seq<f32>, b: Seq<f32>) requires vec_eqv(a, b) ensures vec_keys(a) == vec_keys(b)
+{ assert forall|i: int| 0 <= i < a.len() implies vec_keys(a)[i] == vec_keys(b)[i] by { assert(ofeq(a[i], b[i])); ax_ofeq_hash(a[i], b[i]); } assert(vec_keys(a) =~= vec_keys(b)); }
 pub proof fn lemma_eqv_reflexive(a: Value) ensures eqv(a, a)
-{ broadcast use ax_peq_refl, ax_ofeq_refl, ax_peq_option; }
+{ broadcast use ax_peq_refl, ax_ofeq_refl, ax_peq_option; match a { Value::Vector(Some(x)) => { lemma_vec_refl(vec_view(*x)); } _ => {} } }
 pub proof fn lemma_eqv_symmetric(a: Value, b: Value) ensures eqv(a, b) == eqv(b, a)
-{ broadcast use ax_peq_sym, ax_ofeq_sym; }
+{ broadcast use ax_peq_sym, ax_ofeq_sym; match (a, b) { (Value::Vector(Some(x)), Value::Vector(Some(y))) => { lemma_vec_sym(vec_view(*x), vec_view(*y)); } _ => {} } }
 pub proof fn lemma_eqv_transitive(a: Value, b: Value, c: Value) requires eqv(a, b), eqv(b, c) ensures eqv(a, c)
-{ broadcast use ax_peq_trans, ax_ofeq_trans; }
+{ broadcast use ax_peq_trans, ax_ofeq_trans; match (a, b, c) { (Value::Vector(Some(x)), Value::Vector(Some(y)), Value::Vector(Some(z))) => { lemma_vec_trans(vec_view(*x), vec_view(*y), vec_view(*z)); } _ => {} } }
 pub proof fn lemma_eqv_separates_variants(a: Value, b: Value) requires tag(a) != tag(b) ensures !eqv(a, b) {}
 pub proof fn lemma_eq_implies_hash(a: Value, b: Value) requires eqv(a, b) ensures hash_events(a) == hash_events(b)
-{ broadcast use ax_peq_hash, ax_ofeq_hash; }
+{ broadcast use ax_peq_hash, ax_ofeq_hash; match (a, b) { (Value::Vector(Some(x)), Value::Vector(Some(y))) => { lemma_vec_hash(vec_view(*x), vec_view(*y)); } _ => {} } }
 // the fact Option<T>::try_from relies on (C12 under hashable-value): a null equals exactly itself
 pub proof fn lemma_eqv_null(a: Value, b: Value) requires is_null(b) ensures eqv(a, b) == (a == b)
 { broadcast use ax_peq_option, ax_peq_arraytype; }
